@@ -745,27 +745,29 @@ Record tobs := TObs {
   t_cmd : option cmd;        (* what was put on the wire *)
   t_accepted : bool;         (* the store applied it *)
   t_cvc : Z;                 (* ConfVerChanged on the region afterwards *)
+  t_prev_cvc : list Z;       (* ConfVerChanged of every EARLIER step of the plan on the region afterwards *)
   t_fin_after : bool;        (* IsFinish afterwards *)
   t_region : region          (* the region afterwards *)
 }.
 
-Definition obs_after (r0 r : region) (s : step) (fb sf : bool) (c : option cmd) (acc : bool) : tobs :=
-  TObs (safe r0 s) fb sf c acc (conf_ver_changed r s) (is_finish r s) r.
+Definition obs_after (done : list step) (r0 r : region) (s : step) (fb sf : bool) (c : option cmd) (acc : bool) : tobs :=
+  TObs (safe r0 s) fb sf c acc (conf_ver_changed r s) (map (conf_ver_changed r) done) (is_finish r s) r.
 
 (* every step is attempted in turn, also after a failure (the monitor stops at the first failure,
    the trace comparison does not) *)
-Fixpoint trace_of (r : region) (ss : list step) : list tobs :=
+Fixpoint trace_from (done : list step) (r : region) (ss : list step) : list tobs :=
   match ss with
   | [] => []
   | s :: rest =>
       match exec_step r s with
-      | RSkip => obs_after r r s true true None false :: trace_of r rest
-      | RUnsafe _ => obs_after r r s false false None false :: trace_of r rest
-      | RNoCmd => obs_after r r s false true None false :: trace_of r rest
-      | RRejected c => obs_after r r s false true (Some c) false :: trace_of r rest
-      | RDone c r' => obs_after r r' s false true (Some c) true :: trace_of r' rest
+      | RSkip => obs_after done r r s true true None false :: trace_from (done ++ [s]) r rest
+      | RUnsafe _ => obs_after done r r s false false None false :: trace_from (done ++ [s]) r rest
+      | RNoCmd => obs_after done r r s false true None false :: trace_from (done ++ [s]) r rest
+      | RRejected c => obs_after done r r s false true (Some c) false :: trace_from (done ++ [s]) r rest
+      | RDone c r' => obs_after done r r' s false true (Some c) true :: trace_from (done ++ [s]) r' rest
       end
   end.
+Definition trace_of (r : region) (ss : list step) : list tobs := trace_from [] r ss.
 
 Definition zz_eqb (a b : Z * Z) : bool := (fst a =? fst b) && (snd a =? snd b).
 
@@ -799,7 +801,8 @@ Definition cmd_eqb (a b : cmd) : bool :=
 Definition tobs_eqb (a b : tobs) : bool :=
   Bool.eqb (t_safe_raw a) (t_safe_raw b) && Bool.eqb (t_fin_before a) (t_fin_before b) && Bool.eqb (t_safe a) (t_safe b)
   && opt_eqb cmd_eqb (t_cmd a) (t_cmd b) && Bool.eqb (t_accepted a) (t_accepted b)
-  && (t_cvc a =? t_cvc b) && Bool.eqb (t_fin_after a) (t_fin_after b) && region_eqb (t_region a) (t_region b).
+  && (t_cvc a =? t_cvc b) && list_eqb Z.eqb (t_prev_cvc a) (t_prev_cvc b)
+  && Bool.eqb (t_fin_after a) (t_fin_after b) && region_eqb (t_region a) (t_region b).
 
 Definition bout_eqb (a b : bout) : bool :=
   match a, b with
@@ -867,6 +870,25 @@ Fixpoint step_monitor (rb : region) (ss : list step) (tr : list tobs) : option s
   | _, _ => None
   end.
 
+(* Builder plans never lower what an earlier step counts in ConfVerChanged (else checkStaleOperator cancels the operator
+   on its own steps, C09): the implementation's counts of all earlier steps after every step, against the counts those
+   steps had one step before.  before = counts of steps 0..k-1 after step k-1. *)
+Fixpoint first_drop (k : nat) (before after : list Z) : option nat :=
+  match before, after with
+  | b :: br, a :: ar => if a <? b then Some k else first_drop (S k) br ar
+  | _, _ => None
+  end.
+Fixpoint count_monitor (ss_all : list step) (before : list Z) (tr : list tobs) : option string :=
+  match tr with
+  | [] => None
+  | t :: trr =>
+      match first_drop 0 before (t_prev_cvc t) with
+      | Some k => Some (sapp "C08:step:earlier-step-count-dropped:"
+                             (match nth_error ss_all k with Some s => step_name s | None => "?" end))
+      | None => count_monitor ss_all (t_prev_cvc t ++ [t_cvc t]) trr
+      end
+  end.
+
 (* Monitor: the property evaluated on the plan the IMPLEMENTATION produced. *)
 Definition plan_monitor (c : ccase) : option string :=
   match c with
@@ -890,7 +912,14 @@ Definition monitor (c : ccase) : option string :=
   match plan_monitor c with
   | Some v => Some v
   | None => match case_out c with
-            | Built ss _ _ => step_monitor (case_region c) ss (case_trace c)
+            | Built ss _ _ =>
+                match step_monitor (case_region c) ss (case_trace c) with
+                | Some v => Some v
+                | None => match c with
+                          | CProbe _ _ _ => None          (* arbitrary steps may undo each other *)
+                          | _ => count_monitor ss [] (case_trace c)
+                          end
+                end
             | _ => None
             end
   end.
